@@ -217,6 +217,9 @@ def run(tier, ev):
     for s in sp:
         for n, why in s.unusable:
             ev.cov["not_exercised"].append(f"provenance {n}: {why}")
+    for n in PV.uncovered_producers():
+        ev.cov["not_exercised"].append(f"network-producing function without a provenance entry: {n}"
+                                       + (" (needs network access)" if n.startswith("load_") else ""))
     ev.cov["bounds"] = {"explicit_ids": [0, 1, 2, 5, -1, 2.0, "e", 7, 3, 4, 6], "depth": sp[0].depth,
                         "provenances": {s.name: len(s.inits) for s in sp}}
     ev.assumptions += ["small-scope hypothesis on depth and ID menu"]
